@@ -226,6 +226,38 @@ def refusals(ctx, tg, dis):
         hc.cleanup(wd)
 
 
+def gridsize_refusal(ctx, tg, dis):
+    """(moments family, second wave) a valid single-bunch results file whose grid size differs from GridSize cannot be
+    used as a start: main() must quit with a message before the simulation starts (repo fix 71d4ab2; the test in
+    main() is regenerated as gen_main_refuses_gridsize, theorem C11_source_gridsize_refused)"""
+    import re
+    wd = hc.workdir()
+    try:
+        src = os.path.join(wd, "g16.h5")
+        base = dict(steps=8, rot="0.5", outstep=2, save=1, gap=0, padding=2)
+        rc, so, se = hc.run_inovesa(tg, hc.Cfg(n=16, currents=[3e-4], **base).args(src, wd))
+        if not os.path.exists(src):
+            raise RuntimeError("could not produce the start file: " + (so + se)[-300:])
+        for other in (24, 12):
+            out = os.path.join(wd, "out_g%d.h5" % other)
+            rc, so, se = hc.run_inovesa(tg, hc.Cfg(n=other, currents=[3e-4], start=(src, None), **base).args(out, wd), timeout=120)
+            txt = so + se
+            case = dict(kind="refusal", file="gridsize-%d-into-%d" % (16, other))
+            if "Starting the simulation" in txt or rc == 124:
+                ctx.violation("impl-oracle", "a start file of another grid size (16 into GridSize %d) was not refused" % other, case=case,
+                              observed=txt[-400:], sig=dict(kind="restart", clause="refusal", file="gridsize"))
+            elif not re.search(r"rror|size|differ|cannot|refus|quit", txt, flags=re.I):
+                ctx.violation("impl-oracle", "a start file of another grid size (16 into GridSize %d) was refused without a message" % other,
+                              case=case, observed=txt[-400:], sig=dict(kind="restart", clause="refusal-message", file="gridsize"))
+            elif os.path.exists(out):
+                ctx.violation("impl-oracle", "a results file was written although the start file (other grid size) was refused", case=case,
+                              sig=dict(kind="restart", clause="refusal", file="gridsize"))
+            ctx.case_done("refusal:gridsize-%d" % other, True)
+            ctx.count("refusal:gridsize")
+    finally:
+        hc.cleanup(wd)
+
+
 def model_cases(ctx, dis):
     """use_step against its specification on generated (len, step), incl. the boundaries"""
     rng = ctx.rng
@@ -249,13 +281,14 @@ def run(ctx):
     dis = []
     model_cases(ctx, dis)
     refusals(ctx, tg, dis)
+    gridsize_refusal(ctx, tg, dis)
     nt = 40 if ctx.quick() else 400
     for i in range(nt):
         run_triple(ctx, tg, gen_triple(ctx.rng, i, ctx.quick()), dis)
     ctx.extra["correspondence_disagreements"] = len(dis)
     ctx.assumptions += ["physics kernels are abstract in the continuation theorems; bit-equality for RenormalizeCharge < 0 and the rounding bound otherwise are checked on the binary",
                         "RenormalizeCharge > 0 not dividing the start tag: the model refutes equality (C11_continuation_nondividing_refuted); not compared on the implementation",
-                        "a start file whose grid size differs from GridSize is accepted by the reader (memory errors afterwards are C17's)"]
+                        "a start file whose grid size differs from GridSize is accepted by the reader and refused by main() (C11_source_gridsize_refused; checked on the binary by gridsize_refusal)"]
     ctx.trusted.add("harness/h5cat.cpp, lib/h5_cases.py")
     conclude(ctx, coq, dis)
 
@@ -265,7 +298,9 @@ def replay(ctx, rp):
     tg = ctx.build(want_binary=True, harness=("h5cat",))
     dis = []
     case = rp.get("case") or {}
-    if case.get("kind") == "refusal" or not case.get("kw"):
+    if case.get("kind") == "refusal" and str(case.get("file", "")).startswith("gridsize"):
+        gridsize_refusal(ctx, tg, dis)
+    elif case.get("kind") == "refusal" or not case.get("kw"):
         refusals(ctx, tg, dis)
     else:
         run_triple(ctx, tg, case, dis)
